@@ -81,20 +81,22 @@ class PGen:
         self.injected = False
         self.small = rnd.random() < 0.6      # small constants keep more steps inside the domain
         self.big_consts = cls == 'main' and rnd.random() < 0.15
+        # 64-bit ports with constants that need more than 53 bits (no state variables: those are limited to 32 bits)
+        self.wide = cls == 'main' and not self.big_consts and rnd.random() < 0.1
 
     def build(self, name):
         rnd, p = self.rnd, self.p
         p.name = name
         for i in range(rnd.randint(1, 3)):
-            p.ins.append(('i%d' % i, 32 if self.big_consts and i == 0 else rnd.choice(WIDTHS_IN)))
+            p.ins.append(('i%d' % i, 64 if self.wide and i == 0 else 32 if self.big_consts and i == 0 else rnd.choice(WIDTHS_IN)))
         for i in range(rnd.randint(1, 2)):
-            p.outs.append(('o%d' % i, 32 if self.big_consts else rnd.choice(WIDTHS_OUT)))
-        if p.kind == 'clock':
+            p.outs.append(('o%d' % i, 64 if self.wide else 32 if self.big_consts else rnd.choice(WIDTHS_OUT)))
+        if p.kind == 'clock' and not self.wide:
             for i in range(rnd.randint(0, 2)):
                 p.states.append(('s%d' % i, rnd.choice([0, 0, 1, 3, rnd.randint(0, 9)])))
         for i in range(rnd.randint(0, 2)):
             p.consts.append(('k%d' % i, rnd.choice([0, 1, 2, 3, 5, 7, rnd.randint(0, 40)])))
-        p.locals = ['t%d' % i for i in range(rnd.randint(0, 2))]
+        p.locals = [] if self.wide else ['t%d' % i for i in range(rnd.randint(0, 2))]     # locals are 32-bit integers in Verilog
         if p.cls == 'attr_name':
             n = p.outs[0][0]
             p.out_attr[n] = n + '_w'
@@ -121,6 +123,10 @@ class PGen:
             # constants at and around 2**31 / 2**32 - 1 (still 32-bit patterns)
             self.p.features.add('big_const')
             return str(rnd.choice([0x80000000, 0x80000001, 0x7FFFFFFF, 0xFFFFFFFF, 0xC0000000, 0x80000000 + rnd.getrandbits(8), 1 << 30]))
+        if self.wide and r < 0.15:
+            self.p.features.add('wide_const')
+            return str(rnd.choice([(1 << 53) + 1, 0x9E3779B97F4A7C15, (1 << 64) - 1, (1 << 63) + 12345, (1 << 40) + 7, 0xFFFFFFFFFFFFFFFE,
+                                   (1 << 62) + (1 << 9) + 1, rnd.getrandbits(64) | (1 << 63) | 1]))
         if r < 0.3:
             if rnd.random() < 0.12:
                 # a builtin called on literals only is folded to a constant at generation time: the constant must be the value Python computes,
@@ -391,8 +397,14 @@ def cosim_behavioural(obj, hw, ins, outs, state_names, vectors, sequential, text
         res.status = 'invalid_text'
         res.detail = repr(bad[0]) if bad else 'module %s not emitted' % top
         return res
+    # unsized decimal literals beyond 32 bits: judged only where the two extreme readings of the standard agree (see cosim.cosim)
+    import re
+    big = any(int(m) >= (1 << 31) for m in re.findall(r"(?<![\w'.])\d{10,}(?![\w'.])", text))
+    it2 = None
     try:
-        it = vlog.Interp(d, top, track=True)
+        it = vlog.Interp(d, top, track=True, big_literal='extend' if big else 'x')
+        if big:
+            it2 = vlog.Interp(d, top, track=True, big_literal='wrap32')
     except vlog.Indeterminate as e:
         res.status = 'indeterminate'
         res.detail = str(e)
@@ -420,7 +432,7 @@ def cosim_behavioural(obj, hw, ins, outs, state_names, vectors, sequential, text
         for w in outs:
             a, b = w.get(), it.get(pname[id(w)])
             res.values.add((w.name, a))
-            if a != b:
+            if a != b and (it2 is None or a != it2.get(pname[id(w)])):
                 res.mismatch = dict(kind='output', name=w.name, width=w.getWidth(), step=step, when=when, python=a, verilog=b, inputs=vec)
                 return False
         for s in vstates:
@@ -431,7 +443,7 @@ def cosim_behavioural(obj, hw, ins, outs, state_names, vectors, sequential, text
             res.values.add((s, a))
             if not isinstance(a, int) or a < 0 or a >= (1 << 31):
                 return None          # the Python state left the domain: stop
-            if a != b:
+            if a != b and (it2 is None or a != it2.top.vals[s]):
                 res.mismatch = dict(kind='state', name=s, step=step, when=when, python=a, verilog=b, inputs=vec)
                 return False
         return True
@@ -451,6 +463,8 @@ def cosim_behavioural(obj, hw, ins, outs, state_names, vectors, sequential, text
                 v = vec.get(w.name, 0)
                 w.put(v)
                 it.set_input(pname[id(w)], v)
+                if it2 is not None:
+                    it2.set_input(pname[id(w)], v)
             d0, x0 = it.domain_exits, it.x_events
             try:
                 with muted():
@@ -462,11 +476,11 @@ def cosim_behavioural(obj, hw, ins, outs, state_names, vectors, sequential, text
                 res.skipped += 1
                 res.detail = 'python left the domain: %r' % (e,)
                 break
-            if sequential:
-                it.settle()
-                it.posedge()
-            else:
-                it.settle()
+            for itx in (it, it2):
+                if itx is not None:
+                    itx.settle()
+                    if sequential:
+                        itx.posedge()
             res.steps += 1
             # unbounded Python integers can grow without limit (s *= s every cycle): stop before arithmetic becomes the workload
             if any(isinstance(v, int) and abs(v) >= (1 << 63) for o in (obj,) + tuple(watch) for v in vars(o).values()):
@@ -487,12 +501,16 @@ def cosim_behavioural(obj, hw, ins, outs, state_names, vectors, sequential, text
                             ok_sync = False
                             break
                         it.top.vals[s] = a
+                        if it2 is not None:
+                            it2.top.vals[s] = a
                     if not ok_sync:
                         break
-                    for w in outs:
-                        it.top.vals[pname[id(w)]] = w.get()
-                    # Verilog integers that are Python locals do not carry state: nothing to copy
-                    it.settle()
+                    for itx in (it, it2):
+                        if itx is not None:
+                            for w in outs:
+                                itx.top.vals[pname[id(w)]] = w.get()
+                            # Verilog integers that are Python locals do not carry state: nothing to copy
+                            itx.settle()
                     res.resyncs = getattr(res, 'resyncs', 0) + 1
                 continue
             ok = compare(step, vec, 'after-edge' if sequential else 'settled')
@@ -664,6 +682,8 @@ def judge(run, label, prog_cls, kind, res, case, src_hash):
         run.count('programs_compared')
         for f in case.get('features', ()):
             run.count('compared_with_' + f)
+            if f == 'wide_const':
+                run.count('steps_in_domain_with_wide_const', res.in_domain)
         if res.in_domain >= 8 and len(res.values) >= len(set(n for n, _ in res.values)) + 1:
             run.nt(src_hash)
     if res.status == 'invalid_text' or res.mismatch is not None:
